@@ -313,7 +313,234 @@ def _row_names(ps):
     return set()
 
 
+def _judge_table(model, m, fn):
+    """interpretive judge: map_math_functions_by_name interpreted (through the
+    operator overloads of the node classes, pv/opjudge.py) for every function
+    of the smooth unary table, for a function it cannot know and for a known
+    function with one argument too many.  What comes back is read as a
+    rational function over the atoms p and <fn>(p) and compared with the
+    reference derivative (modulo the Pythagorean identities).  -> witnesses"""
+    from ..absint import Obj, Opaque, Raised, StepBound, module_env
+    from ..opjudge import World, _var
+    w = World(model)
+    glob = module_env(m.tree, dict(w.glob))
+    glob.setdefault("primitives", Opaque("module primitives"))
+    for nm_ in ("quotient",):
+        pm, pf = model.func(f"pymbolic.primitives:{nm_}")
+        from ..absint import Closure
+        glob[f"__prim_{nm_}"] = Closure(pf, w.glob)
+
+    # module-level tables (a dict of rules, ...) evaluated in the same world
+    it0 = w.interp()
+    it0.globals = glob
+    for st in m.tree.body:
+        if isinstance(st, ast.Assign) and len(st.targets) == 1 and isinstance(
+                st.targets[0], ast.Name) and st.targets[0].id not in glob:
+            try:
+                glob[st.targets[0].id] = it0.eval(st.value, glob)
+            except (AnalysisError, Raised, StepBound):
+                pass
+
+    def oeq(a, b):
+        if isinstance(a, Obj) and isinstance(b, Obj):
+            return a.cls == b.cls and set(a.fields) == set(b.fields) and all(
+                oeq(a.fields[k], b.fields[k]) for k in a.fields)
+        if isinstance(a, tuple) and isinstance(b, tuple):
+            return len(a) == len(b) and all(oeq(x, y) for x, y in zip(a, b))
+        return type(a) is type(b) and a == b
+
+    def to_rat(v, npar):
+        if isinstance(v, bool):
+            raise Unsupported("a boolean")
+        if isinstance(v, int):
+            return Rat.const(v)
+        if not isinstance(v, Obj):
+            raise Unsupported(repr(v))
+        f = v.fields
+        if v.cls == "Variable":
+            if f["name"].startswith("__p"):
+                return Rat.atom("p" if npar == 1 else f"p{f['name'][3:]}")
+            raise Unsupported(f"variable {f['name']}")
+        if v.cls == "Sum":
+            r = Rat.const(0)
+            for c in f["children"]:
+                r = r + to_rat(c, npar)
+            return r
+        if v.cls == "Product":
+            r = Rat.const(1)
+            for c in f["children"]:
+                r = r * to_rat(c, npar)
+            return r
+        if v.cls in ("Quotient", "Rational"):
+            return to_rat(f.get("numerator", f.get("Numerator")), npar) / \
+                to_rat(f.get("denominator", f.get("Denominator")), npar)
+        if v.cls == "Power" and isinstance(f["exponent"], int) and \
+                not isinstance(f["exponent"], bool):
+            return to_rat(f["base"], npar) ** f["exponent"]
+        if v.cls == "Call" and len(f["parameters"]) == 2 and isinstance(
+                f["function"], Obj) and f["function"].fields.get("name") == \
+                "copysign" and f["parameters"][0] == 1:
+            arg = f["parameters"][1]
+            if isinstance(arg, Obj) and arg.cls == "Variable" and \
+                    arg.fields["name"].startswith("__p"):
+                inner = "p" if npar == 1 else f"p{arg.fields['name'][3:]}"
+                return Rat.atom(f"sign({inner})")
+        if v.cls == "Call" and len(f["parameters"]) == 1:
+            fo = f["function"]
+            name = fo.fields.get("name") if isinstance(fo, Obj) and fo.cls in (
+                "Lookup", "Variable") else None
+            arg = f["parameters"][0]
+            if name and isinstance(arg, Obj) and arg.cls == "Variable" and \
+                    arg.fields["name"].startswith("__p"):
+                inner = "p" if npar == 1 else f"p{arg.fields['name'][3:]}"
+                return Rat.atom(f"{name}({inner})")
+            if name and isinstance(arg, int):
+                return Rat.atom(f"{name}({arg})")
+        raise Unsupported(f"{v.cls} node")
+
+    def run(fname, npar, i=0, allowed="none"):
+        it = w.interp()
+        it.globals = dict(glob)
+        orig = it.compare
+
+        def cmp_(node, op, a, b):
+            if isinstance(a, Obj) and isinstance(b, Obj) and isinstance(
+                    op, (ast.Eq, ast.NotEq)):
+                return oeq(a, b) == isinstance(op, ast.Eq)
+            if isinstance(a, Opaque) and isinstance(b, Opaque) and isinstance(
+                    op, (ast.Is, ast.IsNot, ast.Eq, ast.NotEq)):
+                # class references: type(func) is primitives.Lookup
+                na, nb = (x.what.replace("class ", "").split(".")[-1]
+                          for x in (a, b))
+                if na in w.nodes and nb in w.nodes:
+                    return (na == nb) == isinstance(op, (ast.Is, ast.Eq))
+            return orig(node, op, a, b)
+        it.compare = cmp_
+        it.calls["primitives.quotient"] = lambda it_, nd, a, k: it_.apply(
+            glob["__prim_quotient"], a, k)
+        it.calls["quotient"] = it.calls["primitives.quotient"]
+        func = Obj("Lookup", {"aggregate": _var("math"), "name": fname})
+        pars = tuple(_var(f"__p{j}") for j in range(npar))
+        for nm_ in list(w.nodes):
+            if nm_ in it.calls:
+                it.calls[f"p.{nm_}"] = it.calls[nm_]
+                it.calls[f"prim.{nm_}"] = it.calls[nm_]
+        try:
+            fm, sf = model.func("pymbolic.functions:sign")
+            fglob = module_env(fm.tree, dict(w.glob))
+            fglob.setdefault("primitives", Opaque("module primitives"))
+            it.calls["sign"] = lambda it_, nd, a, k: it_.call_function(
+                sf, list(a), dict(fglob, __kwargs__=dict(k)))
+        except AnalysisError:
+            pass
+        return it.call_function(fn, [i, func, pars, allowed], dict(glob))
+    wit = []
+    for fname, ref in sorted(DERIV.items()):
+        try:
+            got = to_rat(run(fname, 1), 1)
+        except Raised as r:
+            wit.append(f"math.{fname}: raises at line "
+                       f"{getattr(r.node, 'lineno', '?')} (the property lists "
+                       "it as supported)")
+            continue
+        except StepBound:
+            wit.append(f"math.{fname}: does not terminate")
+            continue
+        except Unsupported as e:
+            raise AnalysisError(f"derivative of math.{fname} outside the "
+                                f"normal form's fragment: {e}")
+        want = ref(Rat.atom)
+        if not (got.equals(want) or got.equals_mod_identities(want)):
+            wit.append(f"the rule for math.{fname} gives {got}, the derivative "
+                       f"is {want}")
+    # the non-smooth rows: refused unless allowed, else sign(u) /
+    # sign(u)*sign(v) and 0
+    gated = [("fabs", 1, 0, NONSMOOTH["fabs"],
+              lambda A: A("sign(p)")),
+             ("copysign", 2, 0, DISCONTINUOUS["copysign"],
+              lambda A: A("sign(p0)") * A("sign(p1)")),
+             ("copysign", 2, 1, DISCONTINUOUS["copysign"],
+              lambda A: Rat.const(0))]
+    for fname, npar, i, levels, ref in gated:
+        for level in ("none", "continuous", "discontinuous"):
+            try:
+                got = run(fname, npar, i, level)
+            except Raised as r:
+                if level in levels:
+                    wit.append(f"math.{fname} with allowed_nonsmoothness="
+                               f"'{level}': raises at line "
+                               f"{getattr(r.node, 'lineno', '?')}")
+                continue
+            except StepBound:
+                wit.append(f"math.{fname}: does not terminate")
+                continue
+            if level not in levels:
+                wit.append(f"math.{fname} is differentiated with "
+                           f"allowed_nonsmoothness='{level}' (it is allowed "
+                           f"only with {list(levels)})")
+                continue
+            try:
+                gr = to_rat(got, npar)
+            except Unsupported as e:
+                raise AnalysisError(f"derivative of math.{fname} outside the "
+                                    f"normal form's fragment: {e}")
+            if not gr.equals(ref(Rat.atom)):
+                wit.append(f"the rule for math.{fname} (argument {i}, "
+                           f"'{level}') gives {gr}, the derivative is "
+                           f"{ref(Rat.atom)}")
+    # a function the table cannot know, and known ones with an argument more
+    for fname, npar in [("frobnicate", 1)] + [
+            (f_, 2) for f_ in sorted(DERIV) if (f_, 2) not in DERIV_N]:
+        try:
+            got = run(fname, npar)
+        except Raised:
+            continue
+        except StepBound:
+            wit.append(f"math.{fname}/{npar}: does not terminate")
+            continue
+        wit.append(f"math.{fname} with {npar} argument(s) is "
+                   + ("not a function the table knows" if npar == 1 else
+                      "not the function of one argument the table has a rule "
+                      "for") + f", and a derivative comes back: {got!r}")
+    return wit
+
+
 def _table(ctx, model):
+    m, fn = model.func(f"{DIFF}:map_math_functions_by_name")
+    loc = m.loc(fn)
+    jwit = None
+    try:
+        jwit = _judge_table(model, m, fn)
+    except AnalysisError as e:
+        ctx.extra["judge_unavailable:map_math_functions_by_name"] = str(e)
+    if jwit is not None:
+        ctx.ob("E0/table/derivative-semantics", not jwit, loc,
+               f"map_math_functions_by_name interpreted for the {len(DERIV)} "
+               "smooth unary functions (results read as rational functions "
+               "over p and fn(p), compared with the reference derivatives), "
+               "for an unknown function and for known ones with two "
+               "arguments: refused" if not jwit else
+               "map_math_functions_by_name: " + "; ".join(jwit[:3]))
+    mark = len(ctx.obs)
+    try:
+        _table_structural(ctx, model)
+    except AnalysisError:
+        if jwit is None or jwit:
+            raise
+    if jwit is not None and not jwit:
+        smooth = tuple(f"E/table/{f_}" for f_ in list(DERIV) + [
+            "fabs", "copysign"]) + ("P/table/fabs/gated",
+                                    "P/table/copysign/gated")
+        for o in ctx.obs[mark:]:
+            if not o.ok and (o.key in smooth or
+                             o.key == "P/table/unknown-function"):
+                o.ok = True
+                o.what = "[shape not recognised; decided by interpreting " \
+                    "the table] " + o.what
+                o.nontrivial = False
+
+
+def _table_structural(ctx, model):
     m, fn = model.func(f"{DIFF}:map_math_functions_by_name")
     loc = m.loc(fn)
     PARS = ("param", "pars")
@@ -1015,7 +1242,188 @@ def _add_list(v):
     return [v]
 
 
+def _world_glob(model, m):
+    """module environment with the module-level constants evaluated"""
+    from ..absint import Interp, Opaque, Raised, StepBound, module_env
+    glob = module_env(m.tree, {})
+    it0 = Interp(globals_=glob, max_steps=2000,
+                 attrs=lambda it_, n_, b, at: Opaque(ast.unparse(n_)))
+    for st in m.tree.body:
+        if isinstance(st, ast.Assign) and len(st.targets) == 1 and isinstance(
+                st.targets[0], ast.Name) and st.targets[0].id not in glob:
+            try:
+                glob[st.targets[0].id] = it0.eval(st.value, glob)
+            except (AnalysisError, Raised, StepBound):
+                pass
+    return glob
+
+
+def _judge_init_setting(model, dm, init):
+    """the constructor interpreted for each value of allowed_nonsmoothness:
+    the three known settings (and the default) complete and are stored, any
+    other value is refused.  -> witnesses"""
+    from ..absint import Interp, Obj, Opaque, Raised, StepBound
+    glob = _world_glob(model, dm.module)
+    wit = []
+    params = [a.arg for a in init.node.args.args]
+    # every string the constructor or a module-level table mentions is a
+    # candidate setting: only the three may pass
+    mentioned = {c.value for c in ast.walk(init.node)
+                 if isinstance(c, ast.Constant) and isinstance(c.value, str)
+                 and len(c.value) < 24 and " " not in c.value}
+    for st in dm.module.tree.body:
+        if isinstance(st, ast.Assign) and isinstance(
+                st.value, (ast.Tuple, ast.List, ast.Set)):
+            mentioned |= {c.value for c in st.value.elts
+                          if isinstance(c, ast.Constant)
+                          and isinstance(c.value, str)}
+    for val in ["<default>", None, "none", "continuous", "discontinuous",
+                "bogus", "Continuous"] + sorted(
+                    mentioned - {"none", "continuous", "discontinuous"}):
+        me = Obj("DifferentiationMapper", {})
+        noop = lambda it_, n_, a, k: None      # noqa: E731
+        it = Interp(calls={"super().__init__": noop, "warn": noop,
+                           "warnings.warn": noop},
+                    globals_=glob, max_steps=4000,
+                    attrs=lambda it_, n_, b, at: Opaque(ast.unparse(n_)))
+        kw = {} if val == "<default>" else {"allowed_nonsmoothness": val}
+        try:
+            it.call_function(init.node, [me, "VAR"], dict(
+                glob, __kwargs__=dict(kw)))
+            done = True
+        except Raised:
+            done = False
+        except StepBound:
+            wit.append(f"allowed_nonsmoothness={val!r}: does not terminate")
+            continue
+        want_done = val in ("<default>", None, "none", "continuous",
+                            "discontinuous")
+        if done != want_done:
+            wit.append(f"allowed_nonsmoothness={val!r}: construction "
+                       + ("completes" if done else "is refused"))
+            continue
+        if done:
+            stored = [v for k_, v in me.fields.items()
+                      if "nonsmooth" in k_]
+            want = "none" if val in ("<default>", None) else val
+            if stored != [want]:
+                wit.append(f"allowed_nonsmoothness={val!r}: the mapper keeps "
+                           f"{stored!r}")
+    return wit
+
+
+def _judge_differentiate(model, m, fn):
+    """differentiate() interpreted with the mapper class as a hook, for a
+    name, a Variable and a Subscript: the mapper is made with the variable
+    node (a name is turned into one), the function table and the setting the
+    caller gave, and applied to the expression.  -> witnesses"""
+    from ..absint import Interp, Obj, Opaque, Raised, StepBound
+    glob = _world_glob(model, m)
+    wit = []
+    for what, var in (("a name", "x"),
+                      ("a Variable", Obj("Variable", {"name": "x"})),
+                      ("a Subscript", Obj("Subscript", {
+                          "aggregate": Obj("Variable", {"name": "a"}),
+                          "index": 0}))):
+        made = []
+
+        def DM(it_, nd, a, k, _m=made):
+            _m.append((list(a), dict(k)))
+            return lambda *a2, **k2: ("applied", len(_m) - 1, a2, k2)
+
+        def mkvar(it_, nd, a, k):
+            return Obj("Variable", {"name": a[0]})
+
+        def isinst(it_, nd, a, k):
+            names = [getattr(c, "what", "").split(".")[-1].split(" ")[-1]
+                     for c in (a[1] if isinstance(a[1], tuple) else (a[1],))]
+            if isinstance(a[0], Obj):
+                return a[0].cls in names
+            if isinstance(a[0], str):
+                return "str" in names
+            return False
+        calls = {"DifferentiationMapper": DM, "isinstance": isinst}
+        for pre in ("", "primitives.", "p.", "prim."):
+            calls[pre + "make_variable"] = mkvar
+            calls[pre + "Variable"] = mkvar
+        it = Interp(calls=calls, globals_=glob, max_steps=4000,
+                    attrs=lambda it_, n_, b, at: Opaque(ast.unparse(n_)))
+        try:
+            got = it.call_function(fn, ["EXPR", var], dict(
+                glob, __kwargs__={"func_mapper": "FM",
+                                  "allowed_nonsmoothness": "continuous"}))
+        except Raised as r:
+            wit.append(f"differentiating with respect to {what}: raises at "
+                       f"line {getattr(r.node, 'lineno', '?')}")
+            continue
+        except StepBound:
+            wit.append(f"{what}: does not terminate")
+            continue
+        if not (isinstance(got, tuple) and got[:1] == ("applied",)
+                and got[2:] == (("EXPR",), {})):
+            wit.append(f"{what}: answers {got!r}, not the mapper applied to "
+                       "the expression")
+            continue
+        a, k = made[got[1]]
+        names = ["variable", "func_map", "allowed_nonsmoothness"]
+        bound = dict(zip(names, a))
+        bound.update({("func_map" if kk == "func_mapper" else kk): v
+                      for kk, v in k.items()})
+        v_ = bound.get("variable")
+        okv = (v_ is var) if isinstance(var, Obj) else (
+            isinstance(v_, Obj) and v_.cls == "Variable"
+            and v_.fields.get("name") == "x")
+        if not okv:
+            wit.append(f"{what}: the mapper is made for {v_!r}")
+        elif bound.get("func_map") != "FM" or \
+                bound.get("allowed_nonsmoothness") != "continuous":
+            wit.append(f"{what}: the function table / the setting are not "
+                       f"passed on ({bound})")
+    return wit
+
+
 def _entry(ctx, model, dm):
+    init = dm.members.get("__init__")
+    iwit = dwit = None
+    try:
+        iwit = _judge_init_setting(model, dm, init)
+    except AnalysisError as e:
+        ctx.extra["judge_unavailable:DifferentiationMapper.__init__"] = str(e)
+    if iwit is not None:
+        ctx.ob("P0/__init__/setting-semantics", not iwit, dm.loc(),
+               "the constructor interpreted for seven values of "
+               "allowed_nonsmoothness: the three settings and the default "
+               "complete and are kept, anything else is refused" if not iwit
+               else "DifferentiationMapper.__init__: " + "; ".join(iwit[:2]))
+    m_, fn_ = model.func(f"{DIFF}:differentiate")
+    try:
+        dwit = _judge_differentiate(model, m_, fn_)
+    except AnalysisError as e:
+        ctx.extra["judge_unavailable:differentiate"] = str(e)
+    if dwit is not None:
+        ctx.ob("P0/differentiate/entry-semantics", not dwit, m_.loc(fn_),
+               "differentiate() interpreted for a name, a Variable and a "
+               "Subscript: the mapper is made for the variable node with the "
+               "caller's function table and setting, and applied" if not dwit
+               else "differentiate(): " + "; ".join(dwit[:2]))
+    mark = len(ctx.obs)
+    try:
+        _entry_structural(ctx, model, dm)
+    except AnalysisError:
+        if iwit is None or iwit or dwit is None or dwit:
+            raise
+    for o in ctx.obs[mark:]:
+        if not o.ok and ((o.key == "P/__init__/setting-validated"
+                          and iwit is not None and not iwit) or
+                         (o.key == "P/differentiate/entry"
+                          and dwit is not None and not dwit)):
+            o.ok = True
+            o.what = "[shape not recognised; decided by interpretation] " + \
+                o.what
+            o.nontrivial = False
+
+
+def _entry_structural(ctx, model, dm):
     init = dm.members.get("__init__")
     # path rule: construction completes only when the setting is one of the
     # three known values
